@@ -20,7 +20,10 @@ TNext == /\ l <= Len(Traces[tid])
 
 TSpec == TInit /\ [][TNext]_tvars
 
-\* also reported: Resets to NON notifications seen, and why / for which kind of registration things ended (vacuity evidence)
+\* also reported (vacuity evidence): Resets to NON notifications seen; why / for which kind of registration things
+\* ended; how many registrations were judged, on which resources; how many separate responses were tracked
 Report == (l = Len(Traces[tid]) + 1) =>
-            PrintT(<<"TRACE", tid, l - 1, firstBad, obs.rstnon, {<<obs.regs[g].cause, obs.regs[g].ty>> : g \in DOMAIN obs.regs}>>)
+            PrintT(<<"TRACE", tid, l - 1, firstBad, obs.rstnon,
+                     {<<obs.regs[g].cause, obs.regs[g].ty>> : g \in DOMAIN obs.regs} \cup {<<"RstNon", obs.regs[g].ty>> : g \in {h \in DOMAIN obs.regs : obs.regs[h].rn}},
+                     Cardinality(DOMAIN obs.regs), {obs.regs[g].q : g \in DOMAIN obs.regs}, Cardinality(DOMAIN obs.ex)>>)
 =============================================================================
